@@ -246,6 +246,12 @@ func oracle(c tcase) (name, detail string) {
 	if panicked {
 		return "no-panic", "diff.Diff panicked"
 	}
+	return oracleOut(c, out)
+}
+
+// oracleOut evaluates the property on the bytes out returned for the texts of c
+// (however they were laid out in memory when Diff was called).
+func oracleOut(c tcase, out []byte) (name, detail string) {
 	same := bytes.Equal(c.old, c.new)
 	if same != (len(out) == 0) {
 		return "empty-iff-identical", fmt.Sprintf("identical=%v but %d bytes of output", same, len(out))
@@ -443,6 +449,60 @@ func genRandom(r *common.RNG, maxLines int) tcase {
 	return tcase{oldName: "a", newName: "b", old: joinLines(o, !r.Chance(1, 4)), new: joinLines(nn, !r.Chance(1, 4))}
 }
 
+// genViews: old and new are two pieces of one text.
+func genViews(r *common.RNG) tcase {
+	var b []byte
+	switch r.Intn(4) {
+	case 0:
+		b = genBytes(r).old
+		b = append(b, genBytes(r).new...)
+	case 1:
+		b = genRandom(r, 40).old
+	default:
+		b = genStructured(r).old
+	}
+	if r.Chance(1, 3) && len(b) > 0 && b[len(b)-1] == '\n' {
+		b = b[:len(b)-1]
+	}
+	// cut points: mostly at line starts, sometimes anywhere
+	var starts []int
+	for i := range b {
+		if i == 0 || b[i-1] == '\n' {
+			starts = append(starts, i)
+		}
+	}
+	starts = append(starts, len(b))
+	cut := func() int {
+		if r.Chance(1, 4) {
+			return r.Intn(len(b) + 1)
+		}
+		return common.Pick(r, starts)
+	}
+	ps := []int{cut(), cut(), cut(), cut()}
+	sort.Ints(ps)
+	c := tcase{oldName: "old", newName: "new"}
+	switch r.Intn(6) {
+	case 0, 1: // same start, different lengths
+		c.old, c.new = b[:ps[1]], b[:ps[3]]
+		if r.Chance(1, 2) {
+			c.old, c.new = b[ps[0]:ps[1]], b[ps[0]:ps[3]]
+		}
+	case 2: // overlapping
+		c.old, c.new = b[ps[0]:ps[2]], b[ps[1]:ps[3]]
+	case 3: // one inside the other
+		c.old, c.new = b[ps[0]:ps[3]], b[ps[1]:ps[2]]
+	case 4: // adjacent
+		c.old, c.new = b[ps[0]:ps[1]], b[ps[1]:ps[3]]
+	case 5: // same end
+		c.old, c.new = b[ps[0]:ps[3]], b[ps[2]:ps[3]]
+	}
+	if r.Bool() {
+		c.old, c.new = c.new, c.old
+	}
+	c.old, c.new = append([]byte{}, c.old...), append([]byte{}, c.new...)
+	return c
+}
+
 // raw bytes (not line structured): NUL, CR, invalid UTF-8, runs of newlines
 func genBytes(r *common.RNG) tcase {
 	mk := func() []byte {
@@ -483,6 +543,7 @@ type runner struct {
 	tags  []string
 	seen  int
 	nshr  map[string]int
+	stab  stability
 }
 
 func (rn *runner) flush() {
@@ -607,9 +668,15 @@ func (rn *runner) one(c tcase, tag string) {
 		res.Count("size:>64-lines")
 	}
 	res.Case(c.key(), panicked || len(out) > 0)
-	if name, detail := oracle(c); name != "" {
+	if panicked {
+		rn.violation(c, "no-panic", "diff.Diff panicked")
+	} else if name, detail := oracleOut(c, out); name != "" {
 		rn.violation(c, name, detail)
 	}
+	// the memory dimension: earlier results must still be what they were, and the same two
+	// texts viewed in one shared buffer must give the same, correct result (memory.go)
+	rn.stab.after(rn, c, "private", out)
+	rn.layouts(c, out, panicked)
 	if rn.seen%7919 == 1 {
 		res.Sample(map[string]any{"old": fmt.Sprintf("%q", trunc(c.old)), "new": fmt.Sprintf("%q", trunc(c.new)), "impl": fmt.Sprintf("%q", trunc(out)), "source": tag})
 	}
@@ -685,7 +752,7 @@ func main() {
 	defer m.Close()
 	rn := &runner{f: f, res: res, m: m, nshr: map[string]int{}}
 	res.Rule = "a case counts as non-trivial when the texts differ (Diff goes through lines, tgs and the hunk loop); " +
-		"compared: all bytes returned by diff.Diff vs render of the model, and the diff logged by failing testscript cmp/cmpenv lines vs render on (a, expanded b); oracles: independent unified-diff parser + forward and reverse patch application, header, order, counts, start lines, empty-iff-identical, no panic"
+		"compared: all bytes returned by diff.Diff vs render of the model (for private copies and for every applicable layout of the two texts in one shared buffer), and the diff logged by failing testscript cmp/cmpenv lines vs render on (a, expanded b); oracles: independent unified-diff parser + forward and reverse patch application, header, order, counts, start lines, empty-iff-identical, no panic; memory: inputs-unchanged (the caller's whole buffer, also behind the texts), result-independent-of-input-memory, result-stable-across-calls (window of earlier results re-verified after every later call, after calls from a second goroutine, and in concurrent sections)"
 
 	if f.Replay != "" {
 		rp, err := common.LoadReplay(f.Replay)
@@ -696,6 +763,11 @@ func main() {
 		in := rp.Violation.Input
 		if in["mode"] == "consumer" {
 			rn.consumerBatch([]ccase{ccaseFromInput(in)}, "replay")
+			res.Write(f.Out)
+			return
+		}
+		if in["mode"] == "stability" {
+			rn.replayStability(in)
 			res.Write(f.Out)
 			return
 		}
@@ -774,6 +846,21 @@ func main() {
 			held = append(held, c)
 		}
 	}
+	// 3b. pairs cut out of ONE text: same start with different lengths (a truncated view, a text
+	// grown in place), overlapping, one inside the other, adjacent — so that the aliasing layouts
+	// of memory.go that need related values are exercised on every kind of text
+	rv := rng.Fork()
+	nv := 8000
+	if f.Tier == "thorough" {
+		nv = 100000
+	}
+	for i := 0; i < nv; i++ {
+		c := genViews(rv)
+		rn.one(c, "views")
+		if i%40 == 0 {
+			held = append(held, c)
+		}
+	}
 	// 4. raw bytes
 	rb := rng.Fork()
 	nb := 8000
@@ -797,6 +884,10 @@ func main() {
 		}
 	}
 	rn.flush()
+	// 5b. several goroutines calling Diff at the same time
+	for lo := 0; lo+64 <= len(held) && lo < 64*12; lo += 64 {
+		rn.concurrent(held[lo : lo+64])
+	}
 	// 6. the consumer: diffs logged by failing cmp / cmpenv lines of testscript
 	rn.consumerBatch(consumerFixed(), "consumer-fixed")
 	rc := rng.Fork()
@@ -804,12 +895,16 @@ func main() {
 	if f.Tier == "thorough" {
 		nc = 6000
 	}
-	for done := 0; done < nc; done += 200 {
-		var cs []ccase
-		for i := 0; i < 200; i++ {
-			cs = append(cs, genConsumer(rc))
+	for done := 0; done < nc; done += 600 {
+		var bs [][]ccase
+		for b := 0; b < 4; b++ { // four testscript runs at the same time
+			var cs []ccase
+			for i := 0; i < 150; i++ {
+				cs = append(cs, genConsumer(rc))
+			}
+			bs = append(bs, cs)
 		}
-		rn.consumerBatch(cs, "consumer")
+		rn.consumerBatches(bs, "consumer")
 	}
 	// 7. the executable form of the theorems, evaluated on the model
 	rn.modelHolds(held)
